@@ -64,7 +64,7 @@ func checkC04(c *Ctx) {
 	r.Explanation = "Decides structural necessary conditions of C04 on cron/parser.go, cron/spec.go, cron/constantdelay.go and cron/doc.go. " +
 		"Tables (E6): the six bounds tables equal the 'Allowed values' table of doc.go (seconds: the range of time.Time.Second) and stay below the star bit; month/weekday names map to the numbering of time.Month/time.Weekday; places/defaults have one entry per field in expression order and each default lies within its bounds; an omitted optional column is filled with the default of its own field at its own end; the seven predefined schedules of parseDescriptor, folded to constants, equal the 'Equivalent To' column of doc.go encoded with the parser's own getBits/all, and all() carries the star bit. " +
 		"Pairing: Parse builds SpecSchedule.F from expression column F with the bounds table of F; Next/dayMatches test SpecSchedule.F against the time.Time accessor of F (Month-Month, Dom-Day, Dow-Weekday, Hour, Minute, Second); dayMatches, evaluated for all 16 assignments of (dom matches, dow matches, dom has star, dow has star), is 'both' when a star is present and 'either' otherwise. " +
-		"Search (minimality): every search loop of Next continues while the bit is clear and leaves when it is set, advances by at most one unit of its field, resets all lower-order fields in the same iteration as the advance (before it, for months), and on a carry into the next higher field goes back to the top of the search so that the higher fields are verified again — the carry test must look at the instant the loop continues with (no Add/AddDate fix-up between the test and the next iteration) and must be detected by a test that still fires when the smallest value of the field does not exist on the wall clock (DST gap at local midnight / 30-minute DST); the search starts exactly at t truncated to the second plus one second (linear form in t.Nanosecond()), is bounded by start year + 5 with the zero time returned beyond, uses the schedule's Location and never a fixed zone. " +
+		"Search (minimality): every search loop of Next continues while the bit is clear and leaves when it is set, advances by at most one unit of its field, resets all lower-order fields in the same iteration as the advance (before it, for months), and on a carry into the next higher field goes back to the top of the search so that the higher fields are verified again — the carry test must look at the instant the loop continues with (no Add/AddDate fix-up between the test and the next iteration) and must be detected by a test that still fires when the smallest value of the field does not exist on the wall clock (DST gap at local midnight / 30-minute DST); the search starts exactly at t truncated to the second plus one second (linear form in t.Nanosecond()), gives up with the zero time only for calendar years beyond start year + 5 (`>` with k>=5 or `>=` with k>=6), uses the schedule's Location and never a fixed zone; every SpecSchedule built by parseDescriptor (folded per documented descriptor with a symbolic loc) carries the loc parameter, and Parse stores in its own SpecSchedule / hands to parseDescriptor the location obtained from time.LoadLocation for a TZ=/CRON_TZ= prefix or time.Local without one. " +
 		"Refusal (E7+E2): every error produced in the parser layer reaches Parse's error result (including the first-error-wins cell of the field closure); getBits is only called under start>=min, end<=max, start<=end, step!=0 (facts may be established by a validation helper whose nil returns are consulted); on every decision-consistent path of getRange with a parsed step and a single parsed start value the end handed to getBits is the field maximum (doc.go: 'N/... means N-MAX/...'), independently of the step's value; normalizeFields succeeds only with a two-sided check of the number of fields; the int->uint conversion of a parsed number is dominated by a non-negativity check; '@every' goes through Every, Every stores a Delay >= 1 s, and ConstantDelaySchedule.Next is t.Add(Delay - t.Nanosecond()). " +
 		"NOT decided: the numerical result of Next as such — that the instant returned is the earliest matching one for every expression, start instant and zone (in particular the day loop's DST midnight fix-ups and repeated hours at fall-back); that Every rounds to whole seconds; the exact bit patterns getBits/getRange produce for ranges, steps ('*/n' losing the star bit) and lists; that the lower bound in the field-count check is the right number; acceptance of oddities such as '*-5' or ','."
 	r.Assumptions = append(r.Assumptions,
@@ -85,7 +85,8 @@ func checkC04(c *Ctx) {
 	r.Rule("C04.P3-matcher", "Next/dayMatches test SpecSchedule.F with bit 1<<accessor where accessor is the time.Time method of F", 6)
 	r.Rule("C04.N1-either-day", "dayMatches == (domStar||dowStar ? dom&&dow : dom||dow) for all 16 assignments", 1)
 	r.Rule("C04.N2-search", "each search loop of Next: polarity, unit step, lower-order reset before the first step, carry goes back to the top and is detected DST-robustly", 18)
-	r.Rule("C04.N3-limit", "the search is bounded by start year + 5 and returns the zero time beyond", 1)
+	r.Rule("C04.N3-limit", "the search gives up (zero time) only for calendar years beyond start year + 5: `year > start+k` needs k >= 5, `year >= start+k` needs k >= 6", 1)
+	r.Rule("C04.D3-location", "every SpecSchedule built by parseDescriptor carries the loc parameter; Parse stores/passes the location parsed from the TZ=/CRON_TZ= prefix, or time.Local without prefix", 9)
 	r.Rule("C04.N4-zone", "Next converts into SpecSchedule.Location, builds wall-clock times only in that location (or t's own for time.Local) and starts from a whole second", 3)
 	r.Rule("C04.P4-errflow", "every error produced in the parser layer is returned (or parked in the first-error cell that Parse checks before succeeding)", 29)
 	r.Rule("C04.P4-range", "getBits is called only under start>=min, end<=max, start<=end, step!=0", 8)
@@ -110,6 +111,7 @@ func checkC04(c *Ctx) {
 	st.checkCount()
 	st.checkNonNeg()
 	st.checkDescriptors()
+	st.checkLocation()
 	st.checkEvery()
 	st.checkEveryDelay()
 
@@ -962,5 +964,187 @@ func (st *c04State) checkOptional() {
 		if !seen[n] {
 			r.Undecide("normalizeFields: no defaults[const] load under a test of %s found", n)
 		}
+	}
+}
+
+// c04Sym is an opaque symbolic argument for the constant evaluator.
+type c04Sym struct{ Name string }
+
+// checkLocation: D3.
+func (st *c04State) checkLocation() {
+	r, p := st.r, st.p
+	rule := "C04.D3-location"
+	pkg := p.Pkg("cron")
+	doc, _ := c04PackageDoc(pkg)
+	_, descs, _ := c04ParseDoc(doc)
+	pd := p.Func("cron", "parseDescriptor")
+	specT := p.Named("cron", "SpecSchedule").Underlying().(*types.Struct)
+	locIdx := -1
+	for i := 0; i < specT.NumFields(); i++ {
+		if specT.Field(i).Name() == "Location" {
+			locIdx = i
+		}
+	}
+	if locIdx < 0 {
+		undecided("anchor field cron.SpecSchedule.Location no longer resolves")
+	}
+	// which parameter of parseDescriptor is the location?
+	locPar := -1
+	for i, par := range pd.Params {
+		if namedKey(par.Type()) == "time.Location" {
+			locPar = i
+		}
+	}
+	if locPar < 0 || len(pd.Params) != 2 {
+		r.Undecide("parseDescriptor no longer takes (descriptor, *time.Location)")
+	} else {
+		globals := st.evalGlobals()
+		if tp := p.All["time"]; tp != nil {
+			if sp := p.SSA.Package(tp.Types); sp != nil {
+				for _, n := range []string{"Local", "UTC"} {
+					if g, ok := sp.Members[n].(*ssa.Global); ok {
+						globals[g] = c04Sym{"time." + n}
+					}
+				}
+			}
+		}
+		sentinel := c04Sym{"loc"}
+		for _, d := range descs {
+			for _, name := range d.Names {
+				construct := "cron.parseDescriptor " + name + " Location"
+				args := make([]any, 2)
+				args[1-locPar] = name
+				args[locPar] = sentinel
+				ev := &c04Eval{Globals: globals, InModule: p.InModule}
+				res, err := ev.Run(pd, args)
+				if err != nil {
+					r.Undecide("parseDescriptor(%q) does not fold: %v", name, err)
+					continue
+				}
+				tup, ok := res.(c04Tuple)
+				var sv *c04Struct
+				if ok && len(tup) == 2 {
+					if ptr, ok := tup[0].(c04Ptr); ok {
+						sv, _ = c04load(ptr).(*c04Struct)
+					}
+				}
+				if sv == nil {
+					// D1 reports a descriptor that is not recognised
+					r.Undecide("parseDescriptor(%q) does not return a SpecSchedule literal", name)
+					continue
+				}
+				got := sv.F[locIdx]
+				if got == any(sentinel) {
+					r.OK(rule, construct, p.Pos(pd.Pos()), "Location = the loc parameter")
+				} else {
+					what := c04Describe(got)
+					if _, isNil := got.(c04Nil); isNil {
+						what = "left nil"
+					}
+					if sym, isSym := got.(c04Sym); isSym {
+						what = sym.Name
+					}
+					r.Violation(rule, construct, p.Pos(pd.Pos()), "the SpecSchedule built for "+name+" does not carry the location handed to parseDescriptor (Location is "+what+"): 'CRON_TZ=Asia/Tokyo "+name+"' is interpreted on the wall clock of another zone (time.Local means the zone of the instant passed to Next), or Next fails on a nil location")
+				}
+			}
+		}
+	}
+	// Parse: the location stored in its own SpecSchedule and the one handed to parseDescriptor
+	parse := p.Func("cron", "Parser.Parse")
+	var loadLoc *ssa.Call
+	allInstrs(parse, func(in ssa.Instruction) {
+		if c, ok := in.(*ssa.Call); ok && callIs(c, "time", "", "LoadLocation") {
+			loadLoc = c
+		}
+	})
+	classify := func(v ssa.Value) (parsed, local bool, bad string) {
+		seen := map[ssa.Value]bool{}
+		var walk func(v ssa.Value)
+		walk = func(v ssa.Value) {
+			if seen[v] {
+				return
+			}
+			seen[v] = true
+			switch x := v.(type) {
+			case *ssa.Phi:
+				for _, e := range x.Edges {
+					walk(e)
+				}
+			case *ssa.Extract:
+				if c, ok := x.Tuple.(*ssa.Call); ok && callIs(c, "time", "", "LoadLocation") && x.Index == 0 {
+					parsed = true
+				} else {
+					bad = "?a value that is neither time.Local nor the result of time.LoadLocation"
+				}
+			case *ssa.UnOp:
+				if g, ok := x.X.(*ssa.Global); ok && x.Op == token.MUL && g.Pkg != nil && g.Pkg.Pkg.Path() == "time" {
+					if g.Name() == "Local" {
+						local = true
+					} else {
+						bad = "time." + g.Name()
+					}
+				} else {
+					bad = "?a value that is neither time.Local nor the result of time.LoadLocation"
+				}
+			default:
+				bad = "?a value that is neither time.Local nor the result of time.LoadLocation"
+			}
+		}
+		walk(v)
+		return
+	}
+	judge := func(construct string, v ssa.Value, pos token.Pos, what string) {
+		parsed, local, bad := classify(v)
+		switch {
+		case strings.HasPrefix(bad, "?"):
+			r.Undecide("%s: %s is %s", construct, what, bad[1:])
+		case bad != "":
+			r.Violation(rule, construct, p.Pos(pos), what+" can be "+bad+": without a TZ=/CRON_TZ= prefix the documented zone is time.Local (the zone of the instant given to Next), not a fixed zone")
+		case loadLoc != nil && !parsed:
+			r.Violation(rule, construct, p.Pos(pos), what+" never is the location parsed from the TZ=/CRON_TZ= prefix (the result of time.LoadLocation is dropped): 'CRON_TZ=Asia/Tokyo 0 6 * * ?' fires at 06:00 local time")
+		case !local && loadLoc == nil:
+			r.Undecide("%s: Parse no longer parses a time zone prefix with time.LoadLocation", construct)
+		case !local:
+			r.Violation(rule, construct, p.Pos(pos), what+" is never time.Local: expressions without a TZ= prefix are not interpreted in the local zone as documented")
+		default:
+			r.OK(rule, construct, p.Pos(pos), what+" is the parsed TZ=/CRON_TZ= location, or time.Local without prefix")
+		}
+	}
+	var locStore *ssa.Store
+	haveLit := false
+	allInstrs(parse, func(in ssa.Instruction) {
+		if a, ok := in.(*ssa.Alloc); ok && namedKey(deref1(a.Type())) == st.spec {
+			haveLit = true
+		}
+		if s, ok := in.(*ssa.Store); ok {
+			if fa, ok := s.Addr.(*ssa.FieldAddr); ok {
+				if id := fieldIDOfAddr(fa); id.Type == st.spec && id.Field == "Location" {
+					if _, isAlloc := fa.X.(*ssa.Alloc); isAlloc {
+						locStore = s
+					}
+				}
+			}
+		}
+	})
+	c1 := "cron.Parser.Parse -> SpecSchedule.Location"
+	switch {
+	case locStore != nil:
+		judge(c1, locStore.Val, locStore.Pos(), "the Location stored by Parse")
+	case haveLit:
+		r.Violation(rule, c1, p.Pos(parse.Pos()), "Parse never sets SpecSchedule.Location: Next fails on (or ignores) the schedule's time zone")
+	default:
+		r.Undecide("Parser.Parse no longer builds the SpecSchedule itself: its Location cannot be traced")
+	}
+	c2 := "cron.Parser.Parse -> parseDescriptor loc"
+	var pdCall *ssa.Call
+	allInstrs(parse, func(in ssa.Instruction) {
+		if c, ok := in.(*ssa.Call); ok && staticCallee(c) == pd {
+			pdCall = c
+		}
+	})
+	if pdCall == nil || locPar < 0 || locPar >= len(pdCall.Call.Args) {
+		r.Undecide("Parser.Parse: no direct call of parseDescriptor found")
+	} else {
+		judge(c2, pdCall.Call.Args[locPar], pdCall.Pos(), "the location handed to parseDescriptor")
 	}
 }
